@@ -52,7 +52,7 @@ theorem forest_of_newfree {s s' : Seg} (hF : Forest s)
 theorem newSlot_forest {s s' : Seg} {g k : Nat} (hF : Forest s) (hnd : s.free.Nodup) (e : s.newSlot g = some (k, s')) :
     Forest s' ∧ Real s' k ∧ (s'.get k).parent = none ∧ (s'.get k).child = none ∧ k ∉ s'.free ∧
     (∀ j, (s'.get j).copied = (s.get j).copied) ∧ (∀ f ∈ s'.free, f ∈ s.free ∨ s.get f = {}) ∧ (k ∈ s.free ∨ s.get k = {}) ∧
-    (∀ j, (s'.get j).parent = (s.get j).parent) := by
+    (∀ j, (s'.get j).parent = (s.get j).parent) ∧ (∀ j, (s'.get j).deleted = (s.get j).deleted) := by
   unfold Seg.newSlot at e
   split at e
   · rename_i i rest hfree
@@ -76,7 +76,10 @@ theorem newSlot_forest {s s' : Seg} {g k : Nat} (hF : Forest s) (hnd : s.free.No
       rw [hfr] at hf; exact .inl (by rw [hfree]; exact List.mem_cons_of_mem _ hf)
     refine ⟨forest_of_newfree hF hfld hsub, by unfold Real; rw [(hfld i).2.2.2]; exact f1, by rw [(hfld i).1]; exact f3,
       by rw [(hfld i).2.1]; exact f2, by rw [hfr]; exact (List.nodup_cons.mp hnd').1, fun j => (hfld j).2.2.2, hsub, .inl hmem,
-      fun j => (hfld j).1⟩
+      fun j => (hfld j).1, fun j => by
+        rw [← e2]
+        show ((s.upd i fun sl => sl.setNext none).get j).deleted = _
+        rw [get_upd]; split <;> rfl⟩
   · rename_i hfree
     split at e
     · cases e
@@ -93,7 +96,7 @@ theorem newSlot_forest {s s' : Seg} {g k : Nat} (hF : Forest s) (hnd : s.free.No
         exact .inr (get_oob s _ (by omega))
       have hk0 : s.get k = {} := by rw [← e1]; exact get_oob s _ (by omega)
       refine ⟨forest_of_newfree hF hfld hsub, by unfold Real; rw [hget, hk0], by rw [hget, hk0], by rw [hget, hk0], ?_,
-        fun j => (hfld j).2.2.2, hsub, .inr hk0, fun j => (hfld j).1⟩
+        fun j => (hfld j).2.2.2, hsub, .inr hk0, fun j => (hfld j).1, fun j => by rw [hget j]⟩
       rw [hfr, ← e1]
       intro hh
       obtain ⟨x, _, hx⟩ := List.mem_map.mp hh
@@ -157,14 +160,21 @@ theorem forest_of_becomes_copy {s : Seg} (hF : Forest s) {k : Nat} (hk : Real s 
 
 theorem detach_forest {s : Seg} (hF : Forest s) {a : Nat} (ha : Real s a) :
     Forest (s.detach a) ∧ (s.detach a).free = s.free ∧ (∀ j, ((s.detach a).get j).copied = (s.get j).copied) ∧
-      (∀ j, ¬ Real s j → ((s.detach a).get j).parent = (s.get j).parent) := by
+      (∀ j, ¬ Real s j → ((s.detach a).get j).parent = (s.get j).parent) ∧
+      (∀ j, ((s.detach a).get j).parent = (s.get j).parent ∨ ((s.detach a).get j).parent = none) ∧
+      ((s.detach a).get a).child = none := by
   unfold Seg.detach
   simp only []
-  obtain ⟨hF1, _, hr1, hf1, hc1, _, hp1⟩ := unparent_forest hF ha
-  obtain ⟨hF2, _, _, hf2, hc2, hp2⟩ := detachChildren_forest hF1 hr1
-  refine ⟨hF2, by rw [hf2, hf1], fun j => by rw [hc2, hc1], fun j hj => ?_⟩
-  have hja : j ≠ a := fun hh => hj (hh ▸ ha)
-  rw [hp2 j (by unfold Real; rw [hc1]; exact hj), hp1 j hja]
+  obtain ⟨hF1, hpa1, hr1, hf1, hc1, _, hp1⟩ := unparent_forest hF ha
+  obtain ⟨hF2, hch2, _, hf2, hc2, hp2, hp3⟩ := detachChildren_forest hF1 hr1
+  refine ⟨hF2, by rw [hf2, hf1], fun j => by rw [hc2, hc1], fun j hj => ?_, fun j => ?_, hch2⟩
+  · have hja : j ≠ a := fun hh => hj (hh ▸ ha)
+    rw [hp2 j (by unfold Real; rw [hc1]; exact hj), hp1 j hja]
+  · rcases hp3 j with h | h
+    · by_cases hja : j = a
+      · right; rw [h, hja]; exact hpa1
+      · left; rw [h, hp1 j hja]
+    · exact .inr h
 
 /-! ## `put_copy` -/
 
@@ -223,7 +233,8 @@ theorem copySlot_forest {s : Seg} (hF : Forest s) {i rf : Nat} (hi : Real s i) (
     (hgood : ∀ p, (s.get rf).parent = some p → Real s p ∧ p ∉ s.free ∧ p < s.slots.size) :
     Forest ((s.copySlot i rf).unmark i) ∧ ((s.copySlot i rf).unmark i).free = s.free ∧
       (∀ j, (((s.copySlot i rf).unmark i).get j).copied = (s.get j).copied) ∧
-      (∀ j, j ≠ i → (((s.copySlot i rf).unmark i).get j).parent = (s.get j).parent) := by
+      (∀ j, j ≠ i → (((s.copySlot i rf).unmark i).get j).parent = (s.get j).parent) ∧
+      (∀ p, (((s.copySlot i rf).unmark i).get i).parent = some p → (s.get p).deleted = false ∧ p ≠ i) := by
   have hsib : (s.get i).sibling = none := hF.root i hi hp
   have hcop : (s.get i).copied = false := hi
   -- the state after the `memcpy`
@@ -241,7 +252,8 @@ theorem copySlot_forest {s : Seg} (hF : Forest s) {i rf : Nat} (hi : Real s i) (
       · rw [hji, get_upd_self _ _ _ (by simpa using his), g1i]
         exact ⟨by show (s.get rf).parent = _; rw [hrp, hp], by show none = _; rw [hc], by show none = _; rw [hsib], by show false = _; rw [hcop]⟩
       · rw [get_upd_ne _ _ _ _ hji, g1 j hji]; exact ⟨rfl, rfl, rfl, rfl⟩
-    exact ⟨forest_congr ts hF, ts.free, fun j => (ts.fld j).2.2.2, fun j _ => (ts.fld j).1⟩
+    exact ⟨forest_congr ts hF, ts.free, fun j => (ts.fld j).2.2.2, fun j _ => (ts.fld j).1,
+      fun q hq => by rw [(ts.fld i).1, hp] at hq; cases hq⟩
   | some p =>
     simp only []
     obtain ⟨hpr, hpf, hps⟩ := hgood p hrp
@@ -254,13 +266,16 @@ theorem copySlot_forest {s : Seg} (hF : Forest s) {i rf : Nat} (hi : Real s i) (
         exact ⟨by show none = _; rw [hp], by show none = _; rw [hc], by show none = _; rw [hsib], by show false = _; rw [hcop]⟩
       · rw [get_upd_ne _ _ _ _ hji, get_upd_ne _ _ _ _ hji, g1 j hji]; exact ⟨rfl, rfl, rfl, rfl⟩
     split
-    · exact ⟨forest_congr ts0 hF, ts0.free, fun j => (ts0.fld j).2.2.2, fun j _ => (ts0.fld j).1⟩
+    · exact ⟨forest_congr ts0 hF, ts0.free, fun j => (ts0.fld j).2.2.2, fun j _ => (ts0.fld j).1,
+        fun q hq => by rw [(ts0.fld i).1, hp] at hq; cases hq⟩
+    rename_i hndel
     by_cases hpi : p = i
     · have hch : child (s.upd i fun si => si.copyFrom (s.get rf)) p i = (false, s.upd i fun si => si.copyFrom (s.get rf)) := by
         unfold child; rw [if_pos hpi]
       rw [hch]
       simp only [Bool.false_eq_true, if_false]
-      exact ⟨forest_congr ts0 hF, ts0.free, fun j => (ts0.fld j).2.2.2, fun j _ => (ts0.fld j).1⟩
+      exact ⟨forest_congr ts0 hF, ts0.free, fun j => (ts0.fld j).2.2.2, fun j _ => (ts0.fld j).1,
+        fun q hq => by rw [(ts0.fld i).1, hp] at hq; cases hq⟩
     · obtain ⟨l, hk⟩ := hF.kids p hpr
       have hil : i ∉ l := fun hh => by rw [(hk.mem i hh).1] at hp; cases hp
       -- the chain of `p` after the `memcpy`
@@ -286,8 +301,15 @@ theorem copySlot_forest {s : Seg} (hF : Forest s) {i rf : Nat} (hi : Real s i) (
         · rw [get_upd_ne _ _ _ _ hji, get_upd_ne _ _ _ _ hji,
             appendTo_get s (s.upd i fun si => si.copyFrom (s.get rf)) p i l (by simp) j (g1 j hji)]
           exact ⟨rfl, rfl, rfl, rfl⟩
-      refine ⟨forest_congr ts hF3, by rw [ts.free, hatt.2.free], fun j => ?_, fun j hj => ?_⟩
+      refine ⟨forest_congr ts hF3, by rw [ts.free, hatt.2.free], fun j => ?_, fun j hj => ?_, fun q hq => ?_⟩
       · rw [(ts.fld j).2.2.2, hatt.2.cop j]
       · rw [(ts.fld j).1, hatt.2.par j, if_neg hj]
+      · rw [(ts.fld i).1, hatt.2.par i, if_pos rfl] at hq
+        cases hq
+        refine ⟨?_, hpi⟩
+        rw [g1 p hpi] at hndel
+        cases hq' : (s.get p).deleted with
+        | false => rfl
+        | true => exact absurd hq' hndel
 
 end GrVerif.Seg
